@@ -204,7 +204,7 @@ def c13_ble_read_cases(draw):
 
 C13_LAYERS = [
     Layer("ble-read-table", run_c13_ble_read, enumerate=enum_c13_ble_read, exhaustive=True, space="6 PDU statuses ^ min(n, 3) for 6 readable sets (n <= 4), distinct values", min_nontrivial=100),
-    Layer("ble-read-gen", run_c13_ble_read, strategy=c13_ble_read_cases, n={"quick": 600, "thorough": 10000}),
+    Layer("ble-read-gen", run_c13_ble_read, strategy=c13_ble_read_cases, n={"quick": 1500, "thorough": 10000}),
     Layer("ble-write-table", run_c13_ble, enumerate=enum_c13_ble, exhaustive=True, space="5 PDU statuses ^ n for 5 characteristic sets (n <= 3); timed-write and small-MTU variants", min_nontrivial=100),
     Layer("ble-write-gen", run_c13_ble, strategy=c13_ble_cases, n={"quick": 2000, "thorough": 30000}),
 ]
@@ -627,7 +627,7 @@ def c01_ble_cases(draw):
 
 C01_BLE_LAYERS = [
     Layer("ble-transport", run_c01_ble, enumerate=enum_c01_ble, exhaustive=True, space="honest (2 resumes) x 2 MTUs x 3 reply fragmentations; 4 faults x 2; resume with bad tag", min_nontrivial=5),
-    Layer("ble-transport-gen", run_c01_ble, strategy=c01_ble_cases, n={"quick": 200, "thorough": 5000}),
+    Layer("ble-transport-gen", run_c01_ble, strategy=c01_ble_cases, n={"quick": 600, "thorough": 5000}),
 ]
 
 
@@ -1303,5 +1303,5 @@ C12_BLE_LAYERS = [
           space="a change while disconnected and a second one after 0..5 reads of the catch-up poll (1 or 2 rounds)", min_nontrivial=10),
     Layer("ble-subscriptions-fixed", run_c12_ble, enumerate=enum_c12_ble, exhaustive=True,
           space="1..6 subscribed characteristics x {no refusal + link loss, start_notify refused once / always for each one, two refusals in two subscribe calls}", min_nontrivial=30),
-    Layer("ble-subscriptions", run_c12_ble, strategy=c12_ble_cases, n={"quick": 300, "thorough": 6000}),
+    Layer("ble-subscriptions", run_c12_ble, strategy=c12_ble_cases, n={"quick": 600, "thorough": 6000}),
 ]
